@@ -141,25 +141,44 @@ def discrete_cases(rng, out, n, bounded, extreme=False):
         params = ['a', 'b', 'c'][:npar]
         covs = [rng.choice([0.25, 1.0, 2.25, 9.0, 30.25]) for _ in params]
         succ = {p: rng.random() < 0.5 for p in params}
+        if rng.random() < 0.5:
+            # the dictionary handed to the constructor need not list the parameters in the proposal's order
+            keys = list(params)
+            rng.shuffle(keys)
+            succ_arg = {p: succ[p] for p in keys}
+        else:
+            succ_arg = succ
         if bounded:
             bnd = {p: (rng.choice([-4, 0, 1]), rng.choice([3, 5, 9])) for p in params}
             bnd = {p: (min(v), max(v) if max(v) > min(v) else min(v) + 2) for p, v in bnd.items()}
+            given_bnd = dict(bnd)
+            if rng.random() < 0.35:
+                # non-integer boundaries are allowed: the proposal widens them to the enclosing integers
+                given_bnd = {p: (v[0] + rng.choice([0.0, 0.5, 0.2]), v[1] - rng.choice([0.0, 0.5, 0.7])) for p, v in bnd.items()}
             cls = rng.choice(['BoundedDiscrete', 'BoundedDiscrete', 'AdaptiveBoundedDiscrete', 'SSAdaptiveBoundedDiscrete'])
             if cls == 'BoundedDiscrete':
-                prop = P.BoundedDiscrete(params, bnd, cov=covs, successive=succ)
+                prop = P.BoundedDiscrete(params, given_bnd, cov=covs, successive=succ_arg)
             elif cls == 'AdaptiveBoundedDiscrete':
-                prop = P.AdaptiveBoundedDiscrete(params, bnd, adaptation_duration=20, successive=succ)
+                prop = P.AdaptiveBoundedDiscrete(params, given_bnd, adaptation_duration=20, successive=succ_arg)
             else:
-                prop = P.SSAdaptiveBoundedDiscrete(params, bnd, cov=covs, successive=succ)
+                prop = P.SSAdaptiveBoundedDiscrete(params, given_bnd, cov=covs, successive=succ_arg)
         else:
             cls = rng.choice(['NormalDiscrete', 'NormalDiscrete', 'AdaptiveNormalDiscrete', 'SSAdaptiveNormalDiscrete'])
             if cls == 'NormalDiscrete':
-                prop = P.NormalDiscrete(params, cov=covs, successive=succ)
+                prop = P.NormalDiscrete(params, cov=covs, successive=succ_arg)
             elif cls == 'AdaptiveNormalDiscrete':
-                prop = P.AdaptiveNormalDiscrete(params, {p: 8 for p in params}, adaptation_duration=20, successive=succ)
+                prop = P.AdaptiveNormalDiscrete(params, {p: 8 for p in params}, adaptation_duration=20, successive=succ_arg)
             else:
-                prop = P.SSAdaptiveNormalDiscrete(params, cov=covs, successive=succ)
+                prop = P.SSAdaptiveNormalDiscrete(params, cov=covs, successive=succ_arg)
             bnd = None
+        if bounded:
+            # the integer bounds the proposal works with (floor / ceil of what it was given)
+            bnd = {p: (int(math.floor(given_bnd[p][0])), int(math.ceil(given_bnd[p][1]))) for p in params}
+            held = {p: (int(prop.boundaries[p][0]), int(prop.boundaries[p][1])) for p in params}
+            if held != bnd:
+                out.corr_failures.append(dict(note='BoundedDiscrete holds boundaries %s for given %s' % (held, given_bnd)))
+            if given_bnd != bnd:
+                out.count('non_integer_bounds')
         perturb_state(prop, rng, out, bnd)
         covs = [float(s) ** 2 for s in prop._std]
         stds = [float(s) for s in prop._std]
@@ -218,6 +237,25 @@ def discrete_cases(rng, out, n, bounded, extreme=False):
             out.evaluations += 1
             # the draws were consumed parameter by parameter
             k = 0
+            try:
+                _replay_ok = True
+                _k = 0
+                for p in params:
+                    while True:
+                        v = sc.normals[_k]
+                        _k += 1
+                        d = int(round(v, 0)) if succ[p] else int(numpy.sign(v) * numpy.ceil(abs(v)))
+                        if (not bounded or bnd[p][0] <= fromx[p] + d <= bnd[p][1]) and (succ[p] or d != 0):
+                            break
+                if _k != len(sc.normals):
+                    _replay_ok = False
+            except IndexError:
+                _replay_ok = False
+            if not _replay_ok:
+                out.corr_failures.append(dict(note='the draws consumed by jump() do not follow the rounding / redraw rule of the parameters',
+                                              case=dict(family=prop.name, params=params, successive=succ, bounds=bnd, fromx=fromx,
+                                                        draws=sc.normals[:12], result={q: int(res[q]) for q in params})))
+                continue
             for i, p in enumerate(params):
                 if bounded:
                     # find how many draws this parameter consumed by replaying the acceptance rule on the recorded values
@@ -465,6 +503,10 @@ def birth_cases(rng, out, n):
                 x = {p: rng.choice([bnd[p][0], bnd[p][1], rng.uniform(*bnd[p]), bnd[p][1] + 1.0, bnd[p][0] - 1e-9]) for p in params}
                 val = float(b.logpdf(dict(x)))
                 out.evaluations += 1
+                outside = any(not (bnd[p][0] <= x[p] <= bnd[p][1]) for p in params)
+                if outside and val > -numpy.inf:
+                    out.violations.append(dict(what='UniformBirth%s reports log-density %r at %s, where it never generates a point' % (bnd, val, x),
+                                               replay=dict(family='uniform_birth', bounds=bnd, xi=x)))
                 terms.append('CUB %s %s %s %s' % (fl([bnd[p][0] for p in params]), fl([bnd[p][1] for p in params]), fl([x[p] for p in params]), core.cfloat(val)))
                 metas.append(dict(family='uniform_birth', bounds=bnd, xi=x, value=val))
         elif kind == 'normal':
